@@ -262,7 +262,9 @@ def t2t(ctx, cases, results, proj=('outcome', 'toks', 'text', 'diags', 'unknowns
         return
     idx = [i for i in range(len(cases)) if not cleveref_used(cases[i]) and results[i]['outcome'] in ('ok', 'crash', 'fatal')]
     if limit and len(idx) > limit:
-        idx = ctx.rng.sample(idx, limit)
+        must = [i for i in idx if cases[i].get('kind') in ('long', 'corpus')]
+        rest = [i for i in idx if cases[i].get('kind') not in ('long', 'corpus')]
+        idx = must + ctx.rng.sample(rest, max(0, limit - len(must)))
     ans = model.run_batch([t2t_request(i, cases[i]) for i in idx], timeout=1800)
     for i in idx:
         c, r = cases[i], results[i]
